@@ -1239,6 +1239,7 @@ def _run_transport(case):
 
     def __init__(self, conn):
       self.conn = conn
+      self.closed = False
       self.reset()
       self.raw = b''
       self.framed = b''
@@ -1258,12 +1259,15 @@ def _run_transport(case):
       pass
 
     def close(self):
+      self.closed = True
       self.to_client.put(b'')
 
     def isOpen(self):
-      return True
+      return not self.closed
 
     def write(self, data):
+      if self.closed:                      # like a real socket: nothing reaches the broker after close()
+        raise OSError('socket is closed')
       self.raw += bytes(data)
       self.wbuf += bytes(data)
       while len(self.wbuf) >= 4:
@@ -1332,7 +1336,7 @@ def _run_transport(case):
       k = context
       sp = specs.get(k, {})
       sock = socks[min(sp.get('conn', 0), nconn - 1)]
-      log.append(['d', k, ctx[-1], canon_delivery(msg), k in sock.written])
+      log.append(['d', k, ctx[-1], canon_delivery(msg), k in sock.written or k in written_before_life])
       then = sp.get('then')
       if then and k not in done_then:
         done_then.add(k)
@@ -1351,8 +1355,13 @@ def _run_transport(case):
       return self.sink
 
   def settle():
-    for _ in range(14):
+    # run every runnable greenlet until nothing has happened for several scheduling rounds
+    quiet = total = 0
+    while quiet < 8 and total < 400:
+      n = len(log)
       gevent.sleep(0)
+      total += 1
+      quiet = quiet + 1 if len(log) == n else 0
 
   def do_send(k):
     sp = specs[k]
@@ -1405,6 +1414,7 @@ def _run_transport(case):
   msink.Queue = RecQueue
   socks, transports, tops = [], [], []
   done_then = set()
+  written_before_life = set()
   term = None
   out = []
   try:
@@ -1419,6 +1429,7 @@ def _run_transport(case):
       top = ssink.ClientTimeoutSink(Provider(ser), None, props)
       if c < len(socks):
         sock.raw, sock.framed = socks[c].raw, socks[c].framed     # wire accounting continues over the lives of a slot
+        written_before_life.update(socks[c].written)
         socks[c], transports[c], tops[c] = sock, tr, top
       else:
         socks.append(sock)
@@ -1437,10 +1448,13 @@ def _run_transport(case):
       elif op['op'] == 'advance':
         clock['now'] += op['dt']
         sign = -1 if case.get('tie') == 'lifo' else 1
-        while True:                  # also the timers scheduled by callbacks while firing
+        while True:                  # also the timers scheduled by callbacks while firing or while settling
           due = sorted([t for t in timers if not t[2] and t[0] <= clock['now']], key=lambda t: (t[0], sign * t[1]))
           if not due:
-            break
+            settle()
+            if not [t for t in timers if not t[2] and t[0] <= clock['now']]:
+              break
+            continue
           t = due[0]
           t[2] = True
           cb, t[3] = t[3], None
@@ -1452,7 +1466,6 @@ def _run_transport(case):
             log.append(['tx', type(e).__name__, state['cb_raised'] > raised0])
           finally:
             ctx.pop()
-        settle()
       elif op['op'] == 'reply':
         tos = op['to'] if isinstance(op['to'], list) else [op['to']]
         chunks = {}
@@ -2085,16 +2098,35 @@ def to_coq(case, obs):
       if ops or exp:
         terms.append('CTransport %s %s %s' % (_cid(case.get('cid')), C.lst(ops), C.lst(exp)))
       streams[c] = [[], []]
+    # Every request belongs to one life of its connection slot (the sink stack that was current when it was issued).
+    # The model describes one life at a time, starting from an empty tag map.  What happens to a request while or after
+    # its connection is shut down (ClientError from _Shutdown, or - when a raising callback aborted _Shutdown - a later
+    # TimeoutError from its still armed deadline) is outside the model and must not be attributed to the next life.
     evs = []
+    life = [0] * nconn
+    life_of = {}
+
+    def ev_conn(ev):
+      if ev[0] in ('s', 'q', 'w', 'b', 'p', 'life'):
+        return ev[1]
+      if ev[0] in ('d', 'x'):
+        return conn_of.get(ev[1])
+      return None
     for op, o in zip(case['ops'], obs['ops']):
-      closing = op['op'] == 'reopen'
+      closing = min(op.get('conn', 0), nconn - 1) if op['op'] == 'reopen' else None
       for ev in o['log']:
         if ev[0] == 'life':
-          closing = False
-        elif closing:
-          if ev[0] == 's':
-            conn_of[ev[2]] = ev[1]
-          continue                                   # what happens while a connection is shut down is not in the model
+          closing = None
+          life[ev[1]] += 1
+          evs.append(ev)
+          continue
+        if ev[0] == 's':
+          conn_of[ev[2]] = ev[1]
+          life_of[ev[2]] = (ev[1], -1 if closing == ev[1] else life[ev[1]])
+        if closing is not None and ev_conn(ev) in (closing, None):
+          continue                                   # the connection that is being shut down (other connections go on)
+        if ev[0] in ('d', 'x') and ev[1] in life_of and life_of[ev[1]] != (life_of[ev[1]][0], life[life_of[ev[1]][0]]):
+          continue                                   # a caller of an earlier life
         evs.append(ev)
     i = 0
     while i < len(evs):
